@@ -99,7 +99,7 @@ static inline void cxx2c_vfvop (int *a, int *b) { *a = __CPROVER_uninterpreted_v
 
 /* ---- arithmetic on floating element types: the one place its meaning is chosen ---- */
 #if defined(CXX2C_ABS_ARITH) && !defined(VF_NATIVE)
-/* mode ABS: + - * / are uninterpreted (congruence only) */
+/* mode ABS: + - * / are uninterpreted (congruence; + and * also commutative) */
 float  __CPROVER_uninterpreted_addf (float, float);
 float  __CPROVER_uninterpreted_subf (float, float);
 float  __CPROVER_uninterpreted_mulf (float, float);
@@ -110,9 +110,32 @@ double __CPROVER_uninterpreted_subd (double, double);
 double __CPROVER_uninterpreted_muld (double, double);
 double __CPROVER_uninterpreted_divd (double, double);
 double __CPROVER_uninterpreted_negd (double);
+/* -DCXX2C_ABS_COMM (the re-check of a refuted ABS obligation, core.py): + and * are COMMUTATIVE uninterpreted functions (IEEE addition and multiplication are commutative bit for bit, NaN payloads aside), so
+ * that a harmless a*b -> b*a edit in one of two copies is not reported: the operands are put into a canonical order (by value, -0 before +0)
+ * before the uninterpreted symbol is applied, and a NaN operand gives that NaN (all NaNs are identified by FEQ). */
+#define CXX2C_COMM(name, T, uf, sgn)                                                                        \
+    static inline T name (T a, T b)                                                                         \
+    {                                                                                                       \
+        if (a != a) return a;                                                                               \
+        if (b != b) return b;                                                                               \
+        _Bool swap = (b < a) || (a == b && sgn (b) && !sgn (a));                                            \
+        return swap ? uf (b, a) : uf (a, b);                                                                \
+    }
+CXX2C_COMM (cxx2c_abs_addf, float, __CPROVER_uninterpreted_addf, __CPROVER_signf)
+CXX2C_COMM (cxx2c_abs_mulf, float, __CPROVER_uninterpreted_mulf, __CPROVER_signf)
+CXX2C_COMM (cxx2c_abs_addd, double, __CPROVER_uninterpreted_addd, __CPROVER_signd)
+CXX2C_COMM (cxx2c_abs_muld, double, __CPROVER_uninterpreted_muld, __CPROVER_signd)
+#ifdef CXX2C_ABS_COMM
+#define IM_ADD(T, a, b) _Generic ((T) 0, float : cxx2c_abs_addf ((float) (a), (float) (b)), double : cxx2c_abs_addd ((double) (a), (double) (b)), default : ((a) + (b)))
+#else
 #define IM_ADD(T, a, b) _Generic ((T) 0, float : __CPROVER_uninterpreted_addf ((float) (a), (float) (b)), double : __CPROVER_uninterpreted_addd ((double) (a), (double) (b)), default : ((a) + (b)))
+#endif
 #define IM_SUB(T, a, b) _Generic ((T) 0, float : __CPROVER_uninterpreted_subf ((float) (a), (float) (b)), double : __CPROVER_uninterpreted_subd ((double) (a), (double) (b)), default : ((a) - (b)))
+#ifdef CXX2C_ABS_COMM
+#define IM_MUL(T, a, b) _Generic ((T) 0, float : cxx2c_abs_mulf ((float) (a), (float) (b)), double : cxx2c_abs_muld ((double) (a), (double) (b)), default : ((a) * (b)))
+#else
 #define IM_MUL(T, a, b) _Generic ((T) 0, float : __CPROVER_uninterpreted_mulf ((float) (a), (float) (b)), double : __CPROVER_uninterpreted_muld ((double) (a), (double) (b)), default : ((a) * (b)))
+#endif
 #define IM_DIV(T, a, b) _Generic ((T) 0, float : __CPROVER_uninterpreted_divf ((float) (a), (float) (b)), double : __CPROVER_uninterpreted_divd ((double) (a), (double) (b)), default : ((a) / (b)))
 /* negation stays concrete: it is exact (a sign flip) and the code compares against -max() */
 #define IM_NEG(T, a) (-(a))
